@@ -69,6 +69,7 @@ func judge(prop *Property, ep *Episode) []Viol {
 	}
 	for _, m := range j.r.unknownEntries {
 		j.add("C01.e", 0, "worker function invoked with a payload that matches no submission: %s", m)
+		j.add("C07.c", 0, "the job passed to the worker function does not carry submitted data (payload matches no submission): %s", m)
 	}
 	j.v = append(j.v, j.r.ackViol...)
 	j.checkExecution()
@@ -320,6 +321,7 @@ func (j *judgeCtx) checkExecution() {
 		}
 		if len(s.Entries) >= 2 && !j.reexecAllowed(s) {
 			j.add("C01.a", s.Entries[1], "submission %d executed %d times (entries at %v)", s.N, len(s.Entries), s.Entries)
+			j.add("C07.c", s.Entries[1], "the data of submission %d reached the worker function %d times (entries at %v): some job does not carry its own submitted data", s.N, len(s.Entries), s.Entries)
 		}
 		if s.AcceptKnown && !s.Accepted && len(s.Entries) > 0 {
 			j.add("C01.b", s.Entries[0], "submission %d was rejected (Add returned false / enqueue refused) but the worker function ran for it", s.N)
@@ -564,6 +566,7 @@ func (j *judgeCtx) checkHandles() {
 			}
 		} else if all && j.ep.Res.Verdict != simrt.VCrash {
 			j.add("C05.b", j.final, "Wait on batch %d (invoked at %d) is still blocked although every item was released (last at %d)", b.idx, c.Inv, rel)
+			j.add("C08.d", j.final, "Wait on batch %d (invoked at %d) is still blocked at rest although every item was released (last at %d) and its pending count can only be 0", b.idx, c.Inv, rel)
 		}
 	}
 }
@@ -598,7 +601,15 @@ func (j *judgeCtx) checkBarriers() {
 				if (st == lsR && infl == 0 && pend == 0) || ((st == lsP || st == lsS) && infl == 0) {
 					j.add("C06.c", j.final, "WaitUntilFinished (invoked at %d) is still blocked at rest: state %c, nothing in flight, %d startable jobs pending", c.Inv, st, pend)
 				}
+				if q := j.wufBlockedAtQuiescence(c); q != nil {
+					j.add("C06.c", q.Inv, "WaitUntilFinished (invoked at %d) is still blocked at the quiescent point %d: state %c, nothing in flight, no acknowledgement stalled, nothing startable pending", c.Inv, q.Inv, j.stateAt(q.Inv))
+				}
 				continue
+			}
+			// (after the still-blocked case above; for calls that did return, the same test
+			// applies to quiescent points in between)
+			if q := j.wufBlockedAtQuiescence(c); q != nil {
+				j.add("C06.c", q.Inv, "WaitUntilFinished (invoked at %d) is still blocked at the quiescent point %d: state %c, nothing in flight, no acknowledgement stalled, nothing startable pending", c.Inv, q.Inv, j.stateAt(q.Inv))
 			}
 			if j.stateDuring(c.Inv, c.Ret) != lsR {
 				continue
@@ -633,6 +644,36 @@ func (j *judgeCtx) checkBarriers() {
 			}
 		}
 	}
+}
+
+// wufBlockedAtQuiescence: a quiescent point (Settle, or the end of the program)
+// inside the call at which WaitUntilFinished had nothing left to wait for: in a known
+// Paused/Stopped state nothing in flight, in a known Running state also nothing
+// startable pending; a stalled acknowledgement still holds its slot.
+func (j *judgeCtx) wufBlockedAtQuiescence(c *Call) *Call {
+	for _, q := range j.r.calls {
+		if q.K != opSettle || !(q.Phase == 0 || q.Arg == 88) || q.Inv <= c.Inv || (c.Ret != 0 && q.Inv >= c.Ret) {
+			continue
+		}
+		if q.Val2 != 0 || j.wd.cancelled != 0 || j.inflightAt(q.Inv) != 0 {
+			continue
+		}
+		switch j.stateAt(q.Inv) {
+		case lsP, lsS:
+			return q
+		case lsR:
+			pend := 0
+			for _, s := range j.wd.subs {
+				if s.AddInv != 0 && s.AddInv < q.Inv && (!s.AcceptKnown || s.Accepted) && (len(s.Entries) == 0 || s.Entries[0] > q.Inv) {
+					pend++ // (cancelled and purged ones included: only "surely nothing pending" counts)
+				}
+			}
+			if pend == 0 {
+				return q
+			}
+		}
+	}
+	return nil
 }
 
 // pendingAtEnd: accepted, startable (not cancelled/purged) and never started.
@@ -1137,21 +1178,41 @@ func (j *judgeCtx) atRestWorker(c *Call, exits int) {
 			j.add("C17.c", c.Ret, "NumProcessing() = %d at rest with no worker function executing", c.Val)
 		}
 	case 5:
+		// Submitted counts accepted submissions; on the distributed kinds the worker learns
+		// of a submission (its own or another producer's) only through the backend's
+		// "enqueued" notification, so there it is the notifications delivered to this
+		// worker's subscriptions that must have been counted, each exactly once.
 		want := 0
+		unknown := 0
 		for _, s := range wd.subs {
+			k := -1
+			if s.Q >= 0 && s.Q < len(wd.qs) {
+				k = wd.qs[s.Q].cfg.Kind
+			}
+			if k == qkDist || k == qkDistPrio {
+				continue
+			}
+			if s.Submitted && !s.AcceptKnown {
+				unknown++
+			}
 			if j.accepted(s) && s.AddRet != 0 && s.AddRet <= c.Inv {
 				want++
 			}
 		}
-		unknown := 0
-		for _, s := range wd.subs {
-			if s.Submitted && !s.AcceptKnown {
-				unknown++
+		seen := map[*simAdapter]bool{}
+		for _, q := range wd.qs {
+			if q.ad == nil || seen[q.ad] || (q.cfg.Kind != qkDist && q.cfg.Kind != qkDistPrio) {
+				continue
+			}
+			seen[q.ad] = true
+			for i, o := range q.ad.subOwner {
+				if o == wd && i < len(q.ad.notifies) {
+					want += q.ad.notifies[i]
+				}
 			}
 		}
-		want += j.notifiesBy(c.Inv)
-		if unknown == 0 && c.Val != want && !j.hasDistributed() {
-			j.add("C17.c", c.Ret, "Submitted = %d at rest, but %d submissions were accepted", c.Val, want)
+		if unknown == 0 && c.Val != want && wd.crashes == 0 {
+			j.add("C17.c", c.Ret, "Submitted = %d at rest, but %d submissions were accepted (distributed kinds: notifications delivered to this worker)", c.Val, want)
 		}
 	case 6:
 		if c.Val != exits {
